@@ -24,7 +24,7 @@ RULE = ("case = one name string: all token sequences <= L over the name alphabet
         "of which >= 1 is lower-case, or a comma form, or an invalid name; distinct = distinct string")
 ASSUMPTIONS = ["two-word comma-free name is First Last (statement)", "word case: first letter at depth 0 or in a depth-0 special character; plain brace groups are caseless"]
 MIN = {"parse_name_post": (100000, 1000000), "reference_partition": (100000, 1000000), "invalid_name": (20000, 200000), "error_block": (300, 3000),
-       "corpus_validation": (1, 1)}
+       "corpus_validation": (1, 1), "resplit_after_mutation": (2000, 20000)}
 FORBID = ["oracle_disagreement"]
 
 ALPHA = ["Aa", "bb", "Cc", "dd", "{Ee}", "{ff}", "{\\'E}x", "{\\'e}x", "1", "\\'E", "\\\\", " ", "~", ",", "{", "}"]
@@ -38,7 +38,7 @@ def exhaustive(tier):
     return f"all token sequences of length <= {_L(tier)} over {ALPHA!r}"
 
 
-WORDS = ["Aa", "bb", "Cc", "dd", "von", "de", "la", "Jr.", "III", "{Ee}", "{ff}", "{\\'E}x", "{\\'e}x", "1", "\\'E", "d'Aa", "{\\oe}x", "{von}", "Éa", "ça",
+WORDS = ["Aa", "bb", "Cc", "dd", "von", "de", "la", "Jr.", "III", "{Ee}", "{ff}", "{\\'E}x", "{\\'e}x", "1", "\\'E", "d'Aa", "{\\oe}x", "{von}", "Éa", "ça", "Strauß", "İz", "ﬁn", "ǅa", "ßa",
          "A.", "b-C", "{A B}", "{a, b}", "\\\\", "x\\", "\\"]
 
 
@@ -182,6 +182,32 @@ def check(case, ctx):
                 if not ok:
                     out.append(Violation("error-block", "C13:error-block-does-not-retain-entry", dict(name=s, got=[sp.block_kind(x) for x in r2.blocks])))
                     break
+    if valid and not err and not out and ctx.cases % 40 == 0:
+        # state carried between calls: split the same name twice through the middleware, tampering with the
+        # first result in between; the second result must again be the parts of the name
+        ctx.mon("resplit_after_mutation")
+        for inplace in (True, False):
+            mw = N.SplitNameParts(allow_inplace_modification=inplace)
+            lib1 = build.library([["entry", "article", "k1", [["author", [s, s]]]]])
+            st, r1 = sp.escape(lambda: mw.transform(lib1))
+            if st == "raise":
+                break
+            parts1 = r1.entries[0]["author"]
+            if len(parts1) == 2 and parts1[0] is parts1[1]:
+                ctx.note("two_occurrences_share_one_NameParts_object")     # observation only, not a verdict
+            for p in {id(x): x for x in parts1}.values():
+                p.first.append("TAMPERED")
+                p.last.clear()
+            lib2 = build.library([["entry", "article", "k2", [["author", [s]]]]])
+            st, r2 = sp.escape(lambda: N.SplitNameParts(allow_inplace_modification=inplace).transform(lib2))
+            ctx.ran(2)
+            if st == "raise":
+                break
+            p2 = r2.entries[0]["author"][0]
+            got2 = dict(first=list(p2.first), von=list(p2.von), last=list(p2.last), jr=list(p2.jr))
+            if got2 != got:
+                out.append(Violation("state-between-calls", "C13:middleware:later-split-differs-after-earlier-result-was-modified", dict(name=s, got=got2, want=got)))
+                break
     if nontriv:
         ctx.nontriv(s)
         if ctx.cases % 9973 == 0:
